@@ -50,9 +50,12 @@ HID_CMD_OUT, HID_DATA_OUT, HID_CMD_IN, HID_DATA_IN = 1, 2, 3, 4
 LINK_KINDS_SERIAL = ("bitflip", "drop", "dup", "truncate", "notready")
 # "notready": from the unit that contains `pos` on, the device answers every read with 0x00 (the protocol's "not ready yet" byte at
 # a frame-start position) and never sends the unit.  The host's allowance for such bytes is a *time* (the device's timeout), so for
-# this one kind the link owns a wall clock: it keeps answering for at most FLOOD_BOUND_S seconds per host write; a host still
+# this one kind the link owns the clock (virtual: FLOOD_STEP_US per "not ready" byte read, see VCLOCK_US; no wall clock, so a loaded
+# machine cannot make a host time out): it keeps answering for at most FLOOD_BOUND_S virtual seconds per host write; a host still
 # reading after that is recorded as unbounded (flood_exceeded) and is then let go by a time-out.
 FLOOD_BOUND_S = 10.0
+FLOOD_STEP_US = 1000
+VCLOCK_US = [0]  # virtual time of the host's time-outs in microseconds
 DEVICE_KINDS = ("nak", "abort", "errstatus", "wrongtag")
 LINK_KINDS_HID = ("zerolen", "missing", "short", "wrongid", "truncate")
 
@@ -265,9 +268,10 @@ class SerialLink(_Link):
     # host side ---------------------------------------------------------
     def host_read(self, n: int) -> bytes:
         if self.flooding and not self.queue and n > 0:
-            import time  # noqa: PLC0415
-
-            now = time.monotonic()
+            # the harness owns the clock of a flooding session: every "not ready" byte the host reads takes FLOOD_STEP_US of
+            # virtual time (props/c10.py makes it the time source of the host's time-outs), nothing else does
+            VCLOCK_US[0] += FLOOD_STEP_US
+            now = VCLOCK_US[0] / 1e6
             if self.flood_start is None:
                 self.flood_start = now
             self.flood_reads += 1
